@@ -52,7 +52,7 @@ type c01Ent struct {
 	children []*c01Ent
 }
 
-type c01Caps struct{ mknod, chown, xattr, xattrBadUTF8, farMtime, sock bool }
+type c01Caps struct{ mknod, chown, xattr, xattrBadUTF8, farMtime, sock, trusted bool }
 
 func c01Probe() (c c01Caps) {
 	d := MkTemp("c01probe-")
@@ -65,6 +65,11 @@ func c01Probe() (c c01Caps) {
 	c.chown = os.Lchown(p, 12345, 54321) == nil
 	c.xattr = xattr.LSet(p, "user.probe", []byte("v")) == nil
 	c.xattrBadUTF8 = c.xattr && xattr.LSet(p, "user.x\xff", []byte("v")) == nil
+	// trusted.* attributes (root only) are the ones symlinks, fifos and device nodes can carry
+	sl := filepath.Join(d, "sl")
+	ff := filepath.Join(d, "ff")
+	c.trusted = os.Symlink("nowhere", sl) == nil && xattr.LSet(sl, "trusted.probe", []byte("v")) == nil &&
+		unix.Mkfifo(ff, 0600) == nil && xattr.LSet(ff, "trusted.probe", []byte("v")) == nil
 	far := time.Date(2300, 1, 1, 0, 0, 0, 5, time.UTC)
 	ts := []unix.Timespec{{Sec: far.Unix(), Nsec: 5}, {Sec: far.Unix(), Nsec: 5}}
 	if unix.UtimesNanoAt(unix.AT_FDCWD, p, ts, unix.AT_SYMLINK_NOFOLLOW) == nil {
@@ -79,7 +84,7 @@ func (c c01Caps) String() string {
 	for _, kv := range []struct {
 		k string
 		v bool
-	}{{"mknod", c.mknod}, {"chown", c.chown}, {"xattr", c.xattr}, {"xattrbad", c.xattrBadUTF8}, {"farmtime", c.farMtime}, {"sock", c.sock}} {
+	}{{"mknod", c.mknod}, {"chown", c.chown}, {"xattr", c.xattr}, {"xattrbad", c.xattrBadUTF8}, {"farmtime", c.farMtime}, {"sock", c.sock}, {"trusted", c.trusted}} {
 		if kv.v {
 			l = append(l, kv.k)
 		}
@@ -160,8 +165,19 @@ func (h *H) c01Meta(e *c01Ent, caps c01Caps, isDirOrFile bool) {
 	if h.Intn(3) == 0 {
 		e.mnsec = int64(h.Intn(1000000000))
 	}
+	if caps.trusted && h.Intn(3) == 0 { // any type, also symlinks, fifos and device nodes
+		if e.xattrs == nil {
+			e.xattrs = map[string][]byte{}
+		}
+		names := []string{"trusted.a", "trusted.overlay.opaque", "trusted.with space", "trusted.md5sum"}
+		for i := 0; i < 1+h.Intn(2); i++ {
+			e.xattrs[names[h.Intn(len(names))]] = h.Bytes(h.Intn(30))
+		}
+	}
 	if caps.xattr && isDirOrFile && h.Intn(3) == 0 {
-		e.xattrs = map[string][]byte{}
+		if e.xattrs == nil {
+			e.xattrs = map[string][]byte{}
+		}
 		names := []string{"user.a", "user.comment", "user.with space", "user.café", "user.=eq", "user.\"q\"", "user.mime_type", "user.日本", "user.a.b.c", "user.A"}
 		for i := 0; i < 1+h.Intn(3); i++ {
 			v := h.Bytes(h.Intn(40))
